@@ -9,10 +9,12 @@ SPEC = hdr_spec(
     props_file="C08")
 
 META = dict(
-    technique="Lean 4 proof (decision logic of the pre-mutation checks, for every repository state) + model/implementation correspondence",
+    technique="Lean 4 proof (decision logic of the pre-mutation checks, for every repository state; converse direction via the inductive invariant over submission histories) + model/implementation correspondence",
     text="Theorems for EVERY repository state, header and hash outcome: a refusing verdict leaves every field of the repository unchanged and announces "
          "nothing (the model separates all checks from the mutation, as the code does; the check order is tied to the source by the extracted sentinel order); "
          "an accepted header satisfied every rule (bits, work, parent held, not held, split rules, DAA bits, not marked, fork depth); already-known and too-deep "
-         "answers; resubmission n times is the identity. The correspondence compares verdict, tip, subscriber stream and full read-API dumps after every op.",
+         "answers; resubmission n times is the identity. For every state reached by submissions from genesis (invariant StreamWF): a header that passes every "
+         "rule IS accepted - no internal error (parent lookup, work conversion, Longest(), branch update) can intervene (C08_passed_is_accepted) - and after "
+         "acceptance re-submitting it any number of times is answered already-known and changes nothing (C08_accepted_then_known). The correspondence compares verdict, tip, subscriber stream and full read-API dumps after every op.",
     note=COMMON_NOTE + "The reference verdict for 'accepted' additionally depends on C02 (work/bits) and on the accepted tree being what the lookups say (C09).",
 )
